@@ -55,41 +55,46 @@ fn h_cmp<const A: usize, const B: usize, S: Src>(s: &mut S) {
 }
 
 /// bisect_entry on a tree sorted by the real order finds exactly the entry with that name and tree-ness
-fn h_bisect<const N: usize, S: Src>(s: &mut S) {
+fn h_bisect<const N: usize, const FLAT: usize, S: Src>(s: &mut S) {
     let id = gix_hash::ObjectId::null(gix_hash::Kind::Sha1);
-    let mut names = [[0u8; 2]; N];
+    // names live in one flat buffer, entry i owns flat[2i..2i+len(i)], len in {1, 2}
+    let flat: [u8; FLAT] = s.bytes();
     let mut lens = [0usize; N];
     let mut modes = [0u16; N];
     let mut i = 0;
     while i < N {
-        names[i] = s.bytes();
         lens[i] = if s.bool() { 1 } else { 2 };
         modes[i] = s.u16();
-        s.assume(name_ok(&names[i]));
+        s.assume(flat[2 * i] != 0 && flat[2 * i] != b'/' && flat[2 * i + 1] != 0 && flat[2 * i + 1] != b'/');
         i += 1;
     }
     let mut entries: Vec<EntryRef<'_>> = Vec::with_capacity(N);
     i = 0;
     while i < N {
-        entries.push(EntryRef { mode: EntryMode(modes[i]), filename: names[i][..lens[i]].as_bstr(), oid: &id });
+        let fname: &[u8] = if lens[i] == 1 { &flat[2 * i..2 * i + 1] } else { &flat[2 * i..2 * i + 2] };
+        entries.push(EntryRef { mode: EntryMode(modes[i]), filename: fname.as_bstr(), oid: &id });
         if i > 0 { s.assume(entries[i - 1].cmp(&entries[i]) == Ordering::Less); }
         i += 1;
     }
     let tree = crate::TreeRef { entries };
+    // harness self-check: the entries carry the names they were given (an earlier version that kept the names in a
+    // 2-dimensional array produced CBMC counter-examples in which they did not -- not reproducible natively)
+    { let mut k = 0; while k < N { assert!(name_ok(tree.entries[k].filename) && tree.entries[k].filename.len() == lens[k], "harness self-check: entry names are the generated names"); k += 1; } }
     let probe: [u8; 2] = s.bytes();
     let plen = if s.bool() { 1 } else { 2 };
     s.assume(name_ok(&probe));
     let is_dir = s.bool();
-    let found = tree.bisect_entry(probe[..plen].as_bstr(), is_dir);
+    let pname: &[u8] = if plen == 1 { &probe[..1] } else { &probe[..2] };
+    let found = tree.bisect_entry(pname.as_bstr(), is_dir);
     // linear scan
     let mut want: Option<usize> = None;
     i = 0;
     while i < N {
-        if &names[i][..lens[i]] == &probe[..plen] && spec_is_tree(modes[i]) == is_dir { want = Some(i); }
+        if &flat[2 * i..2 * i + lens[i]] == pname && spec_is_tree(modes[i]) == is_dir { want = Some(i); }
         i += 1;
     }
     match (found, want) {
-        (Some(e), Some(k)) => assert!(e.filename == names[k][..lens[k]].as_bstr() && e.mode.0 == modes[k], "the entry found is the one of that name and kind"),
+        (Some(e), Some(k)) => assert!(e.filename == flat[2 * k..2 * k + lens[k]].as_bstr() && e.mode.0 == modes[k], "the entry found is the one of that name and kind"),
         (None, None) => {}
         (Some(_), None) => assert!(false, "bisect_entry found an entry that a linear scan does not"),
         (None, Some(_)) => assert!(false, "bisect_entry missed an entry of that name and kind"),
@@ -131,32 +136,38 @@ impl std::io::Write for Buf {
 }
 
 /// TreeRef / Tree: size() == bytes written, and the written bytes decode back to the same entries
-fn h_tree_size<const N: usize, S: Src>(s: &mut S) {
+fn h_tree_size<const N: usize, const FLAT: usize, S: Src>(s: &mut S) {
+    let flat: [u8; FLAT] = s.bytes();
     let mut ids = [[0u8; 20]; N];
-    let mut names = [[0u8; 2]; N];
     let mut lens = [0usize; N];
     let mut modes = [0u16; N];
     let mut i = 0;
     while i < N {
-        names[i] = s.bytes();
         lens[i] = if s.bool() { 1 } else { 2 };
         modes[i] = s.u16();
         ids[i][0] = s.u8();
-        s.assume(name_ok(&names[i]));
+        s.assume(flat[2 * i] != 0 && flat[2 * i] != b'/' && flat[2 * i + 1] != 0 && flat[2 * i + 1] != b'/');
         i += 1;
     }
     let oids: Vec<gix_hash::ObjectId> = ids.iter().map(|b| gix_hash::ObjectId::from(*b)).collect();
     let mut entries: Vec<EntryRef<'_>> = Vec::with_capacity(N);
     i = 0;
     while i < N {
-        entries.push(EntryRef { mode: EntryMode(modes[i]), filename: names[i][..lens[i]].as_bstr(), oid: &oids[i] });
+        let fname: &[u8] = if lens[i] == 1 { &flat[2 * i..2 * i + 1] } else { &flat[2 * i..2 * i + 2] };
+        entries.push(EntryRef { mode: EntryMode(modes[i]), filename: fname.as_bstr(), oid: &oids[i] });
         if i > 0 { s.assume(entries[i - 1].cmp(&entries[i]) == Ordering::Less); }
         i += 1;
     }
     let tree = crate::TreeRef { entries };
+    { let mut k = 0; while k < N { assert!(name_ok(tree.entries[k].filename) && tree.entries[k].filename.len() == lens[k], "harness self-check: entry names are the generated names"); k += 1; } }
     let mut out = Buf { b: [0u8; 64], n: 0 };
     tree.write_to(&mut out).expect("NUL-free names are writable");
     assert!(tree.size() == out.n as u64, "TreeRef::size() == bytes written");
+    // size is also what the format says: per entry octal mode, SP, name, NUL, 20-byte id
+    let mut want = 0usize;
+    i = 0;
+    while i < N { let mut d = 1; let mut v = modes[i] >> 3; while v > 0 { d += 1; v >>= 3; } want += d + 1 + lens[i] + 1 + 20; i += 1; }
+    assert!(out.n == want, "entry = <octal mode> SP <name> NUL <20-byte id>");
     let owned: crate::Tree = tree.clone().into();
     let mut c = Count(0);
     owned.write_to(&mut c).expect("writable");
@@ -228,15 +239,15 @@ harnesses! {
     #[kani::proof] #[kani::unwind(10)] cmp_4_3 => h_cmp::<4, 3, _>;
     #[kani::proof] #[kani::unwind(12)] cmp_6_5 => h_cmp::<6, 5, _>;
     #[kani::proof] #[kani::unwind(12)] cmp_6_6 => h_cmp::<6, 6, _>;
-    #[kani::proof] #[kani::unwind(8)] bisect_1 => h_bisect::<1, _>;
-    #[kani::proof] #[kani::unwind(8)] bisect_2 => h_bisect::<2, _>;
-    #[kani::proof] #[kani::unwind(8)] bisect_3 => h_bisect::<3, _>;
-    #[kani::proof] #[kani::unwind(8)] bisect_4 => h_bisect::<4, _>;
+    #[kani::proof] #[kani::unwind(8)] bisect_1 => h_bisect::<1, 2, _>;
+    #[kani::proof] #[kani::unwind(8)] bisect_2 => h_bisect::<2, 4, _>;
+    #[kani::proof] #[kani::unwind(8)] bisect_3 => h_bisect::<3, 6, _>;
+    #[kani::proof] #[kani::unwind(8)] bisect_4 => h_bisect::<4, 8, _>;
     #[kani::proof] #[kani::unwind(9)] mode_roundtrip => h_mode_roundtrip::<_>;
-    #[kani::proof] #[kani::unwind(8)] #[kani::stub(std::arch::x86_64::__cpuid_count, no_cpuid)] #[kani::stub(std::arch::x86_64::__cpuid, no_cpuid1)]
-    #[kani::stub(<std::io::Error as std::convert::From<crate::tree::write::Error>>::from, stub_tree_err)] tree_size_1 => h_tree_size::<1, _>;
-    #[kani::proof] #[kani::unwind(8)] #[kani::stub(std::arch::x86_64::__cpuid_count, no_cpuid)] #[kani::stub(std::arch::x86_64::__cpuid, no_cpuid1)]
-    #[kani::stub(<std::io::Error as std::convert::From<crate::tree::write::Error>>::from, stub_tree_err)] tree_size_2 => h_tree_size::<2, _>;
+    #[kani::proof] #[kani::unwind(23)] #[kani::stub(std::arch::x86_64::__cpuid_count, no_cpuid)] #[kani::stub(std::arch::x86_64::__cpuid, no_cpuid1)]
+    #[kani::stub(<std::io::Error as std::convert::From<crate::tree::write::Error>>::from, stub_tree_err)] tree_size_1 => h_tree_size::<1, 2, _>;
+    #[kani::proof] #[kani::unwind(23)] #[kani::stub(std::arch::x86_64::__cpuid_count, no_cpuid)] #[kani::stub(std::arch::x86_64::__cpuid, no_cpuid1)]
+    #[kani::stub(<std::io::Error as std::convert::From<crate::tree::write::Error>>::from, stub_tree_err)] tree_size_2 => h_tree_size::<2, 4, _>;
     #[kani::proof] #[kani::unwind(8)] #[kani::stub(std::arch::x86_64::__cpuid_count, no_cpuid)] #[kani::stub(std::arch::x86_64::__cpuid, no_cpuid1)] loose_header_u16 => h_loose_header::<_>;
     #[kani::proof] #[kani::unwind(30)] #[kani::stub(std::arch::x86_64::__cpuid_count, no_cpuid)] #[kani::stub(std::arch::x86_64::__cpuid, no_cpuid1)] tree_iter_any_28 => h_tree_iter_any::<28, _>;
     #[kani::proof] #[kani::unwind(30)] #[kani::stub(std::arch::x86_64::__cpuid_count, no_cpuid)] #[kani::stub(std::arch::x86_64::__cpuid, no_cpuid1)] tree_iter_any_12 => h_tree_iter_any::<12, _>;
